@@ -728,7 +728,7 @@ def print_phase(ctx, rng):
     if ctx.shard == 0:
         execute(ctx, CANONICAL_PRINT)
         ctx.case(CANONICAL_PRINT, True, cls="print origin=line")
-    for _ in range(ctx.budget(5000, 200000)):
+    for _ in range(ctx.budget(5000, 100000)):
         case = gen_set_case(rng, "print")
         execute(ctx, case)
         ctx.case(case, set_nontrivial(case), cls="print origin=" + case["origin"])
@@ -737,7 +737,7 @@ def print_phase(ctx, rng):
 def run(ctx):
     rng = ctx.rng
     # 1. JSON identity (lone surrogates included)
-    for _ in range(ctx.budget(16000, 640000)):
+    for _ in range(ctx.budget(16000, 320000)):
         sur = rng.random() < 0.35
         case = {"kind": "json", "items": G.form_mapping(rng, surrogates=sur, nmax=6), "switch": rng.random() < 0.8}
         execute(ctx, case)
@@ -745,9 +745,9 @@ def run(ctx):
         ctx.case(case, any(f[0] == "scalar" for _, f in case["items"]) or G.is_rich(txt), sample=case,
                  cls="json with lone surrogates" if G.has_surrogate(txt) else "json")
     # 2. merge_attributes
-    merge_phase(ctx, rng, ctx.budget(16000, 640000), True)
+    merge_phase(ctx, rng, ctx.budget(16000, 320000), True)
     # 3. database round trip
-    for _ in range(ctx.budget(500, 24000)):
+    for _ in range(ctx.budget(500, 16000)):
         specs = [{"id": "f%d" % i, "items": G.form_mapping(rng, nmax=5, exclude=("ID", "Parent"))}
                  for i in range(rng.randrange(1, 7))]
         case = {"kind": "db", "features": specs, "file": rng.random() < 0.4, "route": rng.choice(["create", "create", "update"]),
@@ -757,19 +757,19 @@ def run(ctx):
         ctx.case(case, G.is_rich(txt) or any(f[0] == "scalar" for s in specs for _, f in s["items"]),
                  cls="db %s %s" % (case["route"], "file" if case["file"] else "memory"))
     # 4. equality over pools
-    for _ in range(ctx.budget(300, 14400)):
+    for _ in range(ctx.budget(300, 9600)):
         case = {"kind": "eq", "pool": G.pool(rng), "switch": rng.random() < 0.8}
         execute(ctx, case)
         ctx.case(case, True, cls="eq pool")
     # 5. setting values, both switch settings (everything but the printed line)
-    for _ in range(ctx.budget(12000, 480000)):
+    for _ in range(ctx.budget(12000, 240000)):
         case = gen_set_case(rng, "set")
         execute(ctx, case)
         ctx.case(case, set_nontrivial(case), sample=case, cls="set origin=" + case["origin"])
         ctx.classes["set fmt=" + case["fmt"]] += 1
     # 6./7. the two places where a defect is expected to flood come last, so that they cannot push other reports out
     # of the per-shard record; even shards start with the printed line, odd shards with merge under the switch
-    late = [print_phase, lambda c, r: merge_phase(c, r, c.budget(4000, 160000), False)]
+    late = [print_phase, lambda c, r: merge_phase(c, r, c.budget(4000, 80000), False)]
     if ctx.shard % 2:
         late.reverse()
     for phase in late:
